@@ -43,8 +43,13 @@ type FileListChangesFileHash struct {
 	Priority  string
 }
 
-func (c *FileListChangesFileHash) UnmarshalControl(data string) error {
-	var err error
+func (c *FileListChangesFileHash) UnmarshalControl(data string) (err error) {
+	*c = FileListChangesFileHash{}
+	defer func() {
+		if err != nil {
+			*c = FileListChangesFileHash{}
+		}
+	}()
 	c.Algorithm = "md5"
 	vals := strings.Split(data, " ")
 	if len(vals) < 5 {
